@@ -153,6 +153,20 @@ def generate():
     for v in (1, 2, 3, 4):
         add("4-symmetric-key-purpose", "PasetoSymmetricKey<V%d, Public>" % v, "core", [], "let _ = PasetoSymmetricKey::<V%d, Public>::from(Key::<32>::from([0u8; 32]));" % v, False)
         add("4-symmetric-key-purpose", "PasetoSymmetricKey<V%d, Local>" % v, "core", [], "let _ = PasetoSymmetricKey::<V%d, Local>::from(Key::<32>::from([0u8; 32]));" % v, True)
+    # ... by any other construction route a client might reach for (std construction / conversion traits)
+    routes = [
+        ("Default::default() annotated", "let _: PasetoSymmetricKey<V%d, Public> = Default::default();"),
+        ("::default()", "let _ = PasetoSymmetricKey::<V%d, Public>::default();"),
+        ("from [u8; 32]", "let _ = PasetoSymmetricKey::<V%d, Public>::from([0u8; 32]);"),
+        ("from &[u8]", "let _ = PasetoSymmetricKey::<V%d, Public>::from(&[0u8; 32][..]);"),
+        ("from &Key<32>", "let _ = PasetoSymmetricKey::<V%d, Public>::from(&Key::<32>::from([0u8; 32]));"),
+        ("Key<32>.into()", "let _: PasetoSymmetricKey<V%d, Public> = Key::<32>::from([0u8; 32]).into();"),
+        ("try_from &str", "let _ = PasetoSymmetricKey::<V%d, Public>::try_from(\"00\");"),
+        ("str.parse()", "let _ = \"00\".parse::<PasetoSymmetricKey<V%d, Public>>();"),
+    ]
+    for v in (1, 2, 3, 4):
+        for rname, line in routes:
+            add("4-symmetric-key-purpose", "PasetoSymmetricKey<V%d, Public> by %s" % (v, rname), "core", [], line % v, False)
     documented = {(2, 64, "Private"), (4, 64, "Private"), (3, 48, "Private"), (2, 32, "Public"), (4, 32, "Public"), (3, 49, "Public")}
     for half in ("Private", "Public"):
         for v in (1, 2, 3, 4):
@@ -307,7 +321,7 @@ def main():
         "traces_validated_against_impl": len(progs),
         "programs": len(progs),
         "exhaustive": True,
-        "space": "grid of generated client programs: (6 operations x 8 token protocols x 8 key protocols), nonce version x token version, purpose misuse at the core and generic-builder layers, set_implicit_assertion on 5 holder types x 8 protocols, symmetric-key purpose, asymmetric key from Key<N> for N in {32,48,49,64} x 4 versions x {private, public}",
+        "space": "grid of generated client programs: (6 operations x 8 token protocols x 8 key protocols), nonce version x token version, purpose misuse at the core and generic-builder layers, set_implicit_assertion on 5 holder types x 8 protocols, symmetric-key purpose (From<Key<32>> and eight other construction routes), asymmetric key from Key<N> for N in {32,48,49,64} x 4 versions x {private, public}",
         "programs_per_family": fam,
         "must_compile": len(pos),
         "must_not_compile": len(neg),
